@@ -20,9 +20,7 @@ func init() {
 		r := ctx.R
 		atoms := []string{"a", "ab", "a:b", "A", "openid", "openid_admin", "email", "emailx", "pay", "pay:1", "pay:", "x", ""}
 		n := ctx.N(3000, 40000)
-		var b strings.Builder
-		b.WriteString(caseHeader)
-		b.WriteString("Definition fcases : list scopecase := [\n")
+		var entries []string
 		seen := map[string]bool{}
 		nontrivial := 0
 		var jcases []map[string]any
@@ -64,10 +62,7 @@ func init() {
 			c.ScopeIDs = clientScopes
 			allowed := clientutil.AreScopesAllowed(c, gavail, req)
 			contains := containsAll(granted, req)
-			if i > 0 {
-				b.WriteString(";\n")
-			}
-			fmt.Fprintf(&b, "mkScopeCase %s %s %s %s %s %s", cS(clientScopes), cList(avail, Scope.coq), cS(req), cB(allowed), cS(granted), cB(contains))
+			entries = append(entries, fmt.Sprintf("mkScopeCase %s %s %s %s %s %s", cS(clientScopes), cList(avail, Scope.coq), cS(req), cB(allowed), cS(granted), cB(contains)))
 			key := fmt.Sprint(clientScopes, "|", avail, "|", req, "|", granted)
 			if !seen[key] && req != "" {
 				seen[key] = true
@@ -81,11 +76,22 @@ func init() {
 				ctx.Meta.Samples = append(ctx.Meta.Samples, map[string]any{"client_scopes": clientScopes, "available": avail, "requested": req, "allowed": allowed})
 			}
 		}
-		b.WriteString("].\nDefinition corr := Eval vm_compute in map check_scope_case fcases.\nPrint corr.\nDefinition mon := Eval vm_compute in map mon_scope_case fcases.\nPrint mon.\n")
 		jb, _ := json.Marshal(jcases)
 		_ = os.WriteFile(filepath.Join(ctx.Out, "cases.json"), jb, 0o644)
-		_ = os.WriteFile(filepath.Join(ctx.Out, "cases_000.v"), []byte(b.String()), 0o644)
-		ctx.Meta.Files = []string{"cases_000.v"}
+		const per = 2500 // one big list literal overflows coqc's stack
+		for k := 0; k*per < len(entries); k++ {
+			hi := (k + 1) * per
+			if hi > len(entries) {
+				hi = len(entries)
+			}
+			var b strings.Builder
+			b.WriteString(caseHeader)
+			b.WriteString("Definition fcases : list scopecase := [\n" + strings.Join(entries[k*per:hi], ";\n"))
+			b.WriteString("].\nDefinition corr := Eval vm_compute in map check_scope_case fcases.\nPrint corr.\nDefinition mon := Eval vm_compute in map mon_scope_case fcases.\nPrint mon.\n")
+			name := fmt.Sprintf("cases_%03d.v", k)
+			_ = os.WriteFile(filepath.Join(ctx.Out, name), []byte(b.String()), 0o644)
+			ctx.Meta.Files = append(ctx.Meta.Files, name)
+		}
 		ctx.Meta.Cases = n
 		ctx.Meta.Distinct = nontrivial
 		ctx.Meta.Rule = "random (client registration, server scopes incl. prefix scopes, requested string) triples over overlapping names, odd spacing; distinct triples with a non-empty request"
